@@ -17,7 +17,7 @@ RULE = ('cases = (table sizes incl. 0,1,2,254..257,300 and random; protocol vers
         'reached `connected` with at least one table entry.')
 ASSUMPTIONS = ['simulated device implements the firmware TOC protocol (V1 and V2) as documented',
                'platform / link-control requests are never lost (the library sends them without retry)']
-REQUIRED = ['mon.stale_item_answers_in_the_format_of_the_other_protocol_generation', 'mon.stale_item_answers_right_in_front_of_the_table_info_answer', 'mon.copies_of_item_answers_arriving_in_the_extended_type_phase', 'mon.cached_sessions_with_one_checksum_for_both_tables', 'mon.tables_at_connected', 'mon.lookup_entries', 'mon.stale_sessions', 'mon.lossy_retransmissions',
+REQUIRED = ['mon.stale_log_reset_answers_at_the_start_of_the_next_session', 'mon.stale_item_answers_in_the_format_of_the_other_protocol_generation', 'mon.stale_item_answers_right_in_front_of_the_table_info_answer', 'mon.copies_of_item_answers_arriving_in_the_extended_type_phase', 'mon.cached_sessions_with_one_checksum_for_both_tables', 'mon.tables_at_connected', 'mon.lookup_entries', 'mon.stale_sessions', 'mon.lossy_retransmissions',
             'mon.v1_cases', 'mon.over_255', 'mon.cache_reconnects', 'mon.early_param_packets',
             'mon.stale_item_replies_mid_download', 'mon.cache_shared_with_another_firmware',
             'mon.cache_files_in_an_older_format']
@@ -194,6 +194,7 @@ def run(desc, ctx):
                 s.sleep(0.0005)
                 guard += 1
             link1 = cf.link
+            log_table_begun = cf.log.toc is not None
             cf.close_link()
             left = [(h, d) for (_, _, h, d) in sorted(link1._inflight)] if link1 is not None else []
             obs['stale_left'] = len(left)
@@ -275,9 +276,18 @@ def run(desc, ctx):
         cf.open_link(uri)
         if pol in ('cachenotify', 'notify') and cf.link is not None:
             early_param_packets(cf.link)
+            if pol == 'cachenotify' and desc['seed'] % 2 == 0:
+                # a copy of the log-reset answer of the earlier session arrives before this session has asked anything
+                cf.link.inject(simcf.hdr(5, 1), bytes([5, 0, 0]), 0.0)
+                obs['stale_log_reset_answer'] = True
         if pol == 'stale' and cf.link is not None:
             for (dl, h, d) in spec.carry:
                 cf.link.inject(h, d, dl)
+            if log_table_begun and desc['seed'] % 3 == 0:
+                # the answer to the log reset of the aborted session (it had got as far as its log table) arrives first of all,
+                # before this session has asked anything
+                cf.link.inject(simcf.hdr(5, 1), bytes([5, 0, 0]), 0.0)
+                obs['stale_log_reset_answer'] = True
             # further answers to item requests of the aborted session (any index: the old session may have been
             # further along than the new one is when they arrive)
             import struct as _st
@@ -327,6 +337,7 @@ def run(desc, ctx):
             ctx.violate('toc:' + m, d, replay=rp)
     ctx.count('mon.lookup_entries', obs['lookups'])
     ctx.count('mon.copies_of_item_answers_arriving_in_the_extended_type_phase', obs.get('late_item_copies', 0))
+    ctx.count('mon.stale_log_reset_answers_at_the_start_of_the_next_session', 1 if obs.get('stale_log_reset_answer') else 0)
     if pol == 'stale':
         ctx.count('mon.stale_sessions')
         ctx.count('mon.stale_packets_delivered', obs.get('stale_left', 0))
